@@ -277,6 +277,10 @@ pub fn load_known() -> Vec<KnownFinding> {
     }
 }
 
+pub fn fnv_pub(s: &str) -> u64 {
+    fnv(s)
+}
+
 fn fnv(s: &str) -> u64 {
     let mut h: u64 = 0xcbf29ce484222325;
     for b in s.bytes() {
